@@ -2,6 +2,7 @@ import FxVerif.Model.C16
 import FxVerif.Proofs.C16Sem
 import FxVerif.Proofs.C16Store
 import FxVerif.Model.C16Tx
+import FxVerif.Proofs.C16Tx
 import FxVerif.Proofs.C16Dep
 import FxVerif.Gen.C16Proto
 /-!
@@ -12,7 +13,7 @@ statement before it, or a new authority-carrying handler appears without one, `a
 -/
 namespace FxVerif.Props.C16
 open FxVerif.Gen.C16 FxVerif.Model.C16
-open FxVerif.Gen (C16Dep.impls C16Dep.helpers C16Dep.types C16Dep.unread C16Dep.wiring C16Dep.handlerPkgs C16Sem.proposalExec C16Sem.helpers C16Sem.impls C16Sem.types C16Sem.services C16Sem.registrations C16Sem.msgInfos C16Sem.updateStoreProg)
+open FxVerif.Gen (C16Dep.impls C16Dep.helpers C16Dep.types C16Dep.unread C16Dep.wiring C16Dep.handlerPkgs C16Sem.proposalExec C16Sem.helpers C16Sem.impls C16Sem.types C16Sem.services C16Sem.registrations C16Sem.msgInfos C16Sem.updateStoreProg C16Tx.runTxProg C16Tx.runMsgsStopsAtError)
 
 /-- obligation over the regenerated table: every handler is guarded, or forwards to a guarded one -/
 theorem all_handlers_guarded : handlers.all (fun h => shapeOk handlers h.shape) = true := by decide
@@ -575,6 +576,152 @@ theorem governance_reaches_router {σ : Type} (P : Program) (infos : List MsgInf
   · simp [proposalRun, basicOk, hg]
 
 /-! ### the dependency handlers (Cosmos SDK / IBC / ethermint), regenerated from the module cache -/
+
+/-! ### the transaction pipeline `baseapp.runTx`, regenerated from the pinned SDK and interpreted (round 4) -/
+
+/-- THE REGENERATED `baseapp.runTx` (statement list of the pinned SDK, interpreted): for every transaction, ante handler,
+message list, environment (block gas, decoding, mempool, post handler) the run ends in one of three ways — nothing
+written at all; or, only after `ValidateBasic` and the ante handler passed, exactly what the ante handler wrote; or the
+closed form `runTxSpec`.  Depends on the ORDER read off the source: `ValidateBasic` before the ante handler, the ante
+branch written after its error check, the message branch written under `err == nil`. -/
+theorem run_tx_gen_outcome {σ : Type} (inp : TxIn σ) (s : σ) : TxOutcome inp s (runTxGen inp s) := by
+  unfold runTxGen runTxProg
+  simp only [C16Tx.runTxProg, C16Tx.runMsgsStopsAtError]
+  repeat (first | rw [skip_step] | (apply peel_env _ _ _ _ _ _ _ (Or.inl rfl)))
+  cases hb : inp.basicOk with
+  | false => exact Or.inl (by simp [runSteps, tStep, hb])
+  | true =>
+    rw [show ∀ ts M, runSteps true inp (.validateBasic :: ts) M = runSteps true inp ts M from
+      fun ts M => by simp [runSteps, tStep, hb]]
+    repeat (first | rw [skip_step] | (apply peel_env _ _ _ _ _ _ _ (Or.inl rfl)))
+    rcases ha : inp.ante s with ⟨ra, s1⟩
+    cases ra with
+    | err => exact Or.inl (by simp [runSteps, tStep, anteRun, anteStep, ha])
+    | ok =>
+      rw [ante_block]
+      simp only [anteRun, anteStep, ha, Bool.false_eq_true, ↓reduceIte, reduceCtorEq, beq_iff_eq]
+      repeat (first | rw [skip_step] | (apply peel_env _ _ _ _ _ _ _ (Or.inr ⟨hb, s1, ha, Or.inl rfl⟩)))
+      rcases hm : loopMsgsG true inp.msgs s1 .ok with ⟨rm, s2⟩
+      cases rm <;> cases hp : inp.postOk <;>
+        exact Or.inr ⟨hb, s1, ha, Or.inr (by simp [runSteps, tStep, runTxSpec, hb, ha, hm, hp])⟩
+
+/-- without environment-decided early returns the regenerated pipeline IS the closed form -/
+theorem run_tx_gen_spec {σ : Type} (inp : TxIn σ) (s : σ) (henv : ∀ i, inp.envReject i = false) :
+    runTxGen inp s = runTxSpec inp s := by
+  unfold runTxGen runTxProg runTxSpec
+  simp only [C16Tx.runTxProg, C16Tx.runMsgsStopsAtError, runSteps, tStep, anteRun, anteStep, henv, Bool.false_eq_true, ↓reduceIte]
+  cases hb : inp.basicOk with
+  | false => simp
+  | true =>
+    simp only [↓reduceIte, Bool.not_true, Bool.false_eq_true]
+    rcases ha : inp.ante s with ⟨ra, s1⟩
+    cases ra with
+    | err => simp
+    | ok =>
+      simp only
+      rcases hm : loopMsgsG true inp.msgs s1 .ok with ⟨rm, s2⟩
+      cases rm <;> cases hp : inp.postOk <;> simp [hm]
+
+/-- a FAILED transaction leaves the state as it was, or as the successful ante handler left it (fee payment, sequence
+number) — never anything one of its messages wrote, whichever message failed and whatever the earlier ones did -/
+theorem run_tx_failure_keeps_only_ante {σ : Type} (inp : TxIn σ) (s : σ) (h : (runTxGen inp s).1 = .err) :
+    (runTxGen inp s).2 = s ∨ ((inp.ante s).1 = .ok ∧ (runTxGen inp s).2 = (inp.ante s).2) := by
+  rcases run_tx_gen_outcome inp s with h0 | ⟨hb, s1, ha, h1 | h1⟩
+  · left; rw [h0]
+  · right; rw [h1, ha]; exact ⟨rfl, rfl⟩
+  · rw [h1] at h ⊢
+    unfold runTxSpec at h ⊢
+    simp only [hb, Bool.not_true, Bool.false_eq_true, ↓reduceIte, ha] at h ⊢
+    rcases hm : loopMsgsG true inp.msgs s1 .ok with ⟨rm, s2⟩
+    cases rm with
+    | err => right; simp
+    | ok =>
+      cases hp : inp.postOk with
+      | true => simp [hm, hp] at h
+      | false => right; simp
+
+/-- a message failing `ValidateBasic` (a malformed authority) stops the transaction before the ante handler runs -/
+theorem run_tx_basic_before_ante {σ : Type} (inp : TxIn σ) (s : σ) (h : inp.basicOk = false) :
+    runTxGen inp s = (.err, s) := by
+  rcases run_tx_gen_outcome inp s with h0 | ⟨hb, _⟩
+  · exact h0
+  · rw [h] at hb; cases hb
+
+/-- a transaction the ante handler refuses (wrong signer) leaves nothing, not even what the ante handler wrote before refusing -/
+theorem run_tx_ante_failure_discards {σ : Type} (inp : TxIn σ) (s : σ) (h : (inp.ante s).1 = .err) :
+    runTxGen inp s = (.err, s) := by
+  rcases run_tx_gen_outcome inp s with h0 | ⟨_, s1, ha, _⟩
+  · exact h0
+  · rw [ha] at h; cases h
+
+/-- the hand-written `txRun` (stages basic / ante / messages on a branch) is the regenerated pipeline run on the
+transaction it describes: its shape is no longer an assumption about the SDK but a consequence of `Gen/C16Tx.lean` -/
+theorem tx_run_is_regenerated_pipeline {σ : Type} (P : Program) (infos : List MsgInfo) (env : Env) (auth : Str) (W : World σ)
+    (payloadOk : Bool) (T m msg : String) (signer : List Nat) (s : σ) :
+    (txRun P infos env auth W payloadOk T m msg signer s).2 =
+      runTxGen (txRunIn P infos env auth W payloadOk T m msg signer) s := by
+  rw [run_tx_gen_spec _ _ (fun _ => rfl)]
+  unfold txRun runTxSpec txRunIn
+  cases hb : basicOk infos env.cfg auth payloadOk msg with
+  | false => simp
+  | true =>
+    simp only [Bool.not_true, Bool.false_eq_true, ↓reduceIte]
+    cases ha : accAddress env.cfg auth with
+    | none => simp
+    | some bz =>
+      by_cases hs : bz = signer
+      · subst hs
+        simp only [bne_self_eq_false, Bool.false_eq_true, ↓reduceIte, beq_self_eq_true, loopMsgsG, onBranch]
+        rcases routed P infos env auth W payloadOk T m msg s with ⟨r, s'⟩
+        cases r <;> simp
+      · have h1 : (bz != signer) = true := by simpa using hs
+        have h2 : (some bz == some signer) = false := by simpa using hs
+        simp [h1, h2]
+/-- obligations over `Gen/C16Tx.lean`: `runMsgs` returns at the first failing message; every statement of `runTx` was
+recognised -/
+theorem run_tx_prog_recognised :
+    C16Tx.runMsgsStopsAtError = true ∧
+    C16Tx.runTxProg.all (fun t => match t with
+      | .other _ => false
+      | .ante as => as.all (fun a => match a with | .other _ => false | _ => true)
+      | _ => true) = true := by decide
+
+/-- why the ORDER matters (1): were the ante branch written BEFORE its error check, a refused transaction would keep
+what the ante handler wrote -/
+theorem ante_write_before_check_leaks :
+    runTxProg (σ := Nat) [.ante [.branch, .call true, .write, .returnIfErr]] true
+      { envReject := fun _ => false, basicOk := true, ante := fun s => (.err, s + 1), msgs := [], postOk := true, unknown := id } 0
+      = (.err, 1) := by decide
+
+/-- why the ORDER matters (2): were the message branch written outside the `err == nil` guard, a transaction whose
+message fails after writing would keep that write -/
+theorem unguarded_write_leaks :
+    runTxProg (σ := Nat) [.branchMsgs, .runMsgs true, .writeAlways] true
+      { envReject := fun _ => false, basicOk := true, ante := fun s => (.ok, s), msgs := [fun s => (.err, s + 1)], postOk := true, unknown := id } 0
+      = (.err, 1) := by decide
+
+/-- why the ORDER matters (3): were `ValidateBasic` run AFTER the ante handler, a transaction with a malformed message
+would still pay its fee (keep the ante handler's writes) -/
+theorem basic_after_ante_leaks :
+    runTxProg (σ := Nat) [.ante [.branch, .call true, .returnIfErr, .write], .validateBasic] true
+      { envReject := fun _ => false, basicOk := false, ante := fun s => (.ok, s + 1), msgs := [], postOk := true, unknown := id } 0
+      = (.err, 1) := by decide
+
+/-- why the BRANCH matters: were the messages run on the block's own state, a failing message's writes would stay -/
+theorem msgs_off_branch_leak :
+    runTxProg (σ := Nat) [.branchMsgs, .runMsgs false, .writeIfOk] true
+      { envReject := fun _ => false, basicOk := true, ante := fun s => (.ok, s), msgs := [fun s => (.err, s + 1)], postOk := true, unknown := id } 0
+      = (.err, 1) := by decide
+
+example : (runTxGen (σ := Nat)
+    { envReject := fun _ => false, basicOk := true, ante := fun s => (.ok, s + 10),
+      msgs := [fun s => (.ok, s + 1), fun s => (.err, s + 5)], postOk := true, unknown := id } 0) = (.err, 10) := by decide
+example : (runTxGen (σ := Nat)
+    { envReject := fun _ => false, basicOk := true, ante := fun s => (.ok, s + 10),
+      msgs := [fun s => (.ok, s + 1), fun s => (.ok, s + 5)], postOk := true, unknown := id } 0) = (.ok, 16) := by decide
+example : ∃ inp : TxIn Nat, (runTxGen inp 0).1 = .err ∧ (inp.ante 0).1 = .ok :=
+  ⟨{ envReject := fun _ => false, basicOk := true, ante := fun s => (.ok, s), msgs := [fun s => (.err, s)], postOk := true, unknown := id },
+    by decide, rfl⟩
 
 /-! ### whole blocks (round 4): `FinalizeBlock` runs the transactions one after the other on the block's state -/
 
